@@ -52,6 +52,19 @@ def _stored_obj(rng, ctx):
     return {"a": rng.randint(0, 5), "b": u"x" * rng.randint(0, 300)}
 
 
+def _bytesval(rng, ctx):
+    c = rng.randrange(5)
+    if c == 0:
+        return b""
+    if c == 1:
+        return rng.choice(ctx["vocab"]).encode()
+    if c == 2:
+        return bytes(bytearray(rng.randrange(256) for _ in range(rng.randint(1, 40))))
+    if c == 3:
+        return u"caf\xe9 \U0001F600".encode("utf-8")
+    return b"x" * rng.choice((255, 256, 257, 1000))
+
+
 def _dt(rng, ctx):
     return datetime.datetime(rng.randint(1990, 2030), rng.randint(1, 12),
                              rng.randint(1, 28), rng.randint(0, 23),
@@ -62,7 +75,7 @@ def _dt(rng, ctx):
 def zoo():
     """The full list of field specs. Import of whoosh is deferred so that
     the seams are installed first."""
-    from whoosh import fields
+    from whoosh import fields, columns
     F = FieldSpec
     return [
         F("k", lambda: fields.ID(stored=True, unique=True),
@@ -101,6 +114,37 @@ def zoo():
           lambda r, c: None, tags=("twin_of_so",), weight=0.0),
         F("k2", lambda: fields.ID(stored=True, unique=True),
           lambda r, c: None, tags=("key2",), weight=0.0),
+        # explicit column types (C08)
+        F("cvb", lambda: fields.COLUMN(columns.VarBytesColumn()), _bytesval, tags=("col",), weight=0.0),
+        F("cvb0", lambda: fields.COLUMN(columns.VarBytesColumn(allow_offsets=False)), _bytesval, tags=("col",), weight=0.0),
+        F("cfb", lambda: fields.COLUMN(columns.FixedBytesColumn(4)),
+          lambda r, c: bytes(bytearray(r.randrange(256) for _ in range(4))), tags=("col",), weight=0.0),
+        F("crb", lambda: fields.COLUMN(columns.RefBytesColumn()),
+          lambda r, c: r.choice(c["vocab"]).encode() if r.random() < 0.8 else _bytesval(r, c), tags=("col",), weight=0.0),
+        F("crf", lambda: fields.COLUMN(columns.RefBytesColumn(3)),
+          lambda r, c: r.choice(c["vocab"])[:3].encode().ljust(3, b"_"), tags=("col",), weight=0.0),
+        F("cni", lambda: fields.COLUMN(columns.NumericColumn("i")),
+          lambda r, c: r.choice((0, -1, 2 ** 31 - 1, -2 ** 31, r.randint(-1000, 1000))), tags=("col",), weight=0.0),
+        F("cnq", lambda: fields.COLUMN(columns.NumericColumn("q", default=-7)),
+          lambda r, c: r.choice((0, 2 ** 63 - 1, -2 ** 63, r.randint(-10 ** 12, 10 ** 12))), tags=("col",), weight=0.0),
+        F("cnd", lambda: fields.COLUMN(columns.NumericColumn("d")),
+          lambda r, c: r.choice((0.0, -0.0, 1e308, -2.5, r.random())), tags=("col",), weight=0.0),
+        F("cbit", lambda: fields.COLUMN(columns.BitColumn()),
+          lambda r, c: r.random() < 0.5, tags=("col",), weight=0.0),
+        F("cbit2", lambda: fields.COLUMN(columns.BitColumn(compress_at=4)),
+          lambda r, c: r.random() < 0.5, tags=("col",), weight=0.0),
+        F("ccb", lambda: fields.COLUMN(columns.CompressedBytesColumn()), _bytesval, tags=("col",), weight=0.0),
+        F("ccbl", lambda: fields.COLUMN(columns.CompressedBlockColumn(blocksize=1)),
+          _bytesval, tags=("col",), weight=0.0),
+        F("cpk", lambda: fields.COLUMN(columns.PickleColumn(columns.VarBytesColumn())),
+          _stored_obj, tags=("col",), weight=0.0),
+        F("cvl", lambda: fields.COLUMN(columns.VarBytesListColumn()),
+          lambda r, c: [r.choice(c["vocab"]).encode() for _ in range(r.randint(1, 3))], tags=("col",), weight=0.0),
+        F("cfl", lambda: fields.COLUMN(columns.FixedBytesListColumn(3)),
+          lambda r, c: [r.choice(c["vocab"])[:3].encode().ljust(3, b"_") for _ in range(r.randint(1, 3))],
+          tags=("col",), weight=0.0),
+        F("cst", lambda: fields.COLUMN(columns.StructColumn("<iH", (0, 0))),
+          lambda r, c: (r.randint(-10 ** 6, 10 ** 6), r.randint(0, 65535)), tags=("col",), weight=0.0),
         # features known to be broken on the pinned tree (DESIGN 10/6h) keep a
         # small non-zero weight
         F("dts", lambda: fields.DATETIME(stored=True, sortable=True), _dt,
@@ -131,6 +175,7 @@ class RunConfig(object):
         self.compound = rng.random() < 0.6
         self.blocklimit = rng.choice((1, 2, 3, 4, 8, 16, 128))
         self.compression = rng.choice((0, 0, 3, 9))
+        self.inlinelimit = rng.choice((1, 1, 1, 2, 4))
         self.limitmb = rng.choice((128, 128, 1e-3, 1e-4, 1e-5))
         self.long_text_p = rng.choice((0.0, 0.08, 0.3))
         for kk, vv in force.items():
@@ -149,7 +194,8 @@ class RunConfig(object):
 
     def make_codec(self):
         from whoosh.codec.whoosh3 import W3Codec
-        return W3Codec(blocklimit=self.blocklimit, compression=self.compression)
+        return W3Codec(blocklimit=self.blocklimit, compression=self.compression,
+                       inlinelimit=getattr(self, "inlinelimit", 1))
 
     def writer_kwargs(self):
         return {"limitmb": self.limitmb, "compound": self.compound,
@@ -160,6 +206,7 @@ class RunConfig(object):
                 "bufsize": self.bufsize, "hide_fileno": self.hide_fileno,
                 "compound": self.compound, "blocklimit": self.blocklimit,
                 "compression": self.compression, "limitmb": self.limitmb,
+                "inlinelimit": getattr(self, "inlinelimit", 1),
                 "long_text_p": self.long_text_p}
 
 
